@@ -511,6 +511,68 @@ def e2e_leg(ctx, recs):
     ctx.leg('C-e2e', runs=k)
 
 
+def growth_cache_concurrent(ctx):
+    """Beyond the listed properties: lbry.utils.cache_concurrent (the decorator under request_blob / download_blob).
+    TLC: with the pop as in the code OnlyOnce is refuted, with a guarded pop it holds; the refuting behaviour is replayed on
+    the real decorator.  Reported as an observation (NOTE + evidence), never as a violation of C10."""
+    import asyncio
+    from lbry.utils import cache_concurrent
+    base = 'SPECIFICATION Spec\nCONSTANTS\n  CALLERS = {{1, 2, 3}}\n  MAXEXEC = 4\n  SAFEPOP = {}\nINVARIANT OnlyOnce\nCHECK_DEADLOCK FALSE\n'
+    asfound = tlc.run('CacheConcurrent', base.format('FALSE'), ctx, coverage=False, timeout=600, label='CacheConcurrent-asfound', workers=4)
+    guarded = tlc.run('CacheConcurrent', base.format('TRUE'), ctx, timeout=600, label='CacheConcurrent-guarded', workers=4)
+    ctx.add_tlc(guarded, 'CacheConcurrent exhaustive (3 callers, <= 4 executions), guarded pop: OnlyOnce')
+    if guarded.violated:
+        raise MachineryError('CacheConcurrent: the guarded variant should satisfy OnlyOnce')
+    model_double = 'OnlyOnce' in asfound.violated
+    # replay on the real decorator: two callers share one execution; the first to resume calls again at once; the second's
+    # `finally: cache.pop(key)` then removes the NEW entry; a third caller starts a second execution in flight
+    loop = DetLoop()
+    state = {'running': 0, 'max': 0, 'started': 0}
+    gates = []
+
+    @cache_concurrent
+    async def work(x):
+        state['running'] += 1
+        state['started'] += 1
+        state['max'] = max(state['max'], state['running'])
+        gate = loop.create_future()
+        gates.append(gate)
+        try:
+            return await gate
+        finally:
+            state['running'] -= 1
+
+    async def retrying():
+        await work(1)
+        return await work(1)        # resumes and calls again in the same step of its task
+
+    async def once():
+        return await work(1)
+    with loop:
+        t1 = loop.create_task(retrying())
+        t2 = loop.create_task(once())
+    loop.drain(timers=False)
+    gates[0].set_result('a')                 # the shared execution finishes: both wake-ups are queued
+    loop.drain(timers=False)
+    with loop:
+        t3 = loop.create_task(once())        # a third caller while the retry's execution is still in flight
+    loop.drain(timers=False)
+    real_double = state['max'] >= 2
+    for g in gates:
+        if not g.done():
+            g.set_result('b')
+    loop.drain(timers=False)
+    ctx.count(('growth', 'cache_concurrent'), nontrivial=True)
+    ctx.leg('growth-cache_concurrent', model_refutes_only_once=model_double, guarded_pop_states=guarded.distinct,
+            real_max_executions_in_flight=state['max'], real_executions_started=state['started'],
+            all_callers_finished=bool(t1.done() and t2.done() and t3.done()))
+    if model_double != real_double:
+        print('NOTE: CacheConcurrent.tla and lbry.utils.cache_concurrent disagree on the double execution (spec drift)')
+    elif real_double:
+        print('NOTE: (beyond the listed properties) cache_concurrent can run two executions of the same call at once: a waiter that '
+              'resumes late pops the entry of a NEWER execution (see specs/CacheConcurrent.tla; a guarded pop restores OnlyOnce)')
+
+
 def classify(rec, inv):
     if rec['kind'] == 'client':
         looks = any(u in ('L1', 'L2') for u in rec['stream'])
@@ -530,6 +592,7 @@ def run(ctx):
     client_leg(ctx, streams, recs)
     server_leg(ctx, recs)
     e2e_leg(ctx, recs)
+    growth_cache_concurrent(ctx)
     c = tlc.make_cfg(spec='TSpec', invariants=TINVS, constraint='Reached', postcondition='Report')
     verdicts = tlc.validate_traces('BlobExchangeTrace', c, recs, ctx, label='BlobExchangeTrace', chunk=2000, timeout=1800, deque=False)
     for v in verdicts:
